@@ -22,7 +22,7 @@ ALL = ["ok", "fail", "susp"]
 def run(rep, work, tier, seed):
     if tier == "quick":
         mc = dict(ND=3, NC=0, Behaviours=ALL, Bug="none")
-        confs = [("d2", dict(ND=2, NC=0, Behaviours=ALL, Bug="none")), ("d3", dict(ND=3, NC=0, Behaviours=["ok", "susp"], Bug="none"))]
+        confs = [("d2", dict(ND=2, NC=0, Behaviours=ALL, Bug="none")), ("d3", dict(ND=3, NC=0, Behaviours=ALL, Bug="none"))]
     else:
         mc = dict(ND=3, NC=1, Behaviours=ALL, Bug="none")
         confs = [("d3", dict(ND=3, NC=0, Behaviours=ALL, Bug="none"))]
@@ -41,7 +41,8 @@ def run(rep, work, tier, seed):
         leg_r(rep, work, SPEC, f"conf_{name}_{tier}", cfg_text(conf, invariants=INVS), ScopeLifeDriver)
     rep.assumptions += [
         "disposable doubles: disposable i yields the state B = i (the body must see the one declared last, whatever the "
-        "order in which they finished entering); return shapes alternate between a single State and a list",
+        "order in which they finished entering), the middle one of three yields nothing (None); return shapes alternate "
+        "between a single State and a list",
         "errors raised by the exits run during the rollback of a failed enter are ignored by the library (the enter "
         "error is what surfaces) - modelled so",
     ]
